@@ -14,7 +14,7 @@ func init() {
 	register(&propertyDef{
 		id:    "C03",
 		title: "the run result is the one the workflow's declarative meaning prescribes",
-		rules: []ruleFunc{c03R1, c03R2, c03R3, c03R4, c03R5, c03R6, c03R7, c03R8, c03R9, c03R10, c03R11, c03R12, c03R13},
+		rules: []ruleFunc{c03R1, c03R2, c03R3, c03R4, c03R5, c03R6, c03R7, c03R8, c03R9, c03R10, c03R11, c03R12, c03R13, c03R14},
 		decided: "necessary conditions only: unresolvable nodes never produce an output or a stage input (R1); the returned id and data come from the same workflow-output node (R2); when a stage output is produced every alternative output of that stage is marked unresolvable, the only skip being the produced one (R3); " +
 			"Execute has exactly one success return, guarded by the output-schema lookup and validation, all other returns carry an error and empty results (R4); the no-output-possible error is raised (R5 = C01.R6). Every result-less return carries a provably non-nil error (R4). Shared: a stage is reported done only after its input was received (R8 = C12.R12); every reference is wired into the DAG (R6 = C02.R2) and stage outputs are published before notification in one critical section (R7 = C02.R4).",
 		notDecided: "which output wins among several producible ones, equality of the data with a reference evaluation of the expressions, unresolvability propagation inside dgraph (these need an interpreter and runs).",
@@ -675,4 +675,96 @@ func c03R13(c *Ctx) {
 		return okFirst
 	})
 	c.verdict(groupsFirst, rule, "processing-order", c.blockPos(proc.Header), "ready dependency groups are handled before the other ready nodes of the round", detail+": the order in which a `!soft-optional` reference and the node that contains it are handled is left to chance")
+}
+
+// C03.R14 an aborted run waits for its closing steps at least as long as a step may take to close.
+func c03R14(c *Ctx) {
+	const rule = "C03.R14"
+	c.explain("C03.R14 the constant time Execute waits, after its context was cancelled, for an output built from the `closed` results of its steps is not shorter than the default closure timeout of a plugin step (the time a step may by default take to wind its plugin down): with a shorter wait a step that closes within its allowance reports `closed.result` too late, and the run returns `aborted` although the output it was asked for is producible")
+	var defaultMS int64 = -1
+	if pk := c.AllPkgs[pkgPlugin]; pk != nil && pk.Types != nil {
+		for _, nm := range pk.Types.Scope().Names() {
+			if cst, ok := pk.Types.Scope().Lookup(nm).(*types.Const); ok && strings.EqualFold(nm, "defaultClosureTimeout") {
+				if v, exact := constant.Int64Val(constant.ToInt(cst.Val())); exact {
+					defaultMS = v
+				}
+			}
+		}
+	}
+	if defaultMS < 0 {
+		c.unresolved("plugin.defaultClosureTimeout")
+		return
+	}
+	n := 0
+	for _, top := range c.ifaceMethodImpls(pkgWorkflow, "ExecutableWorkflow", "Execute") {
+		for _, fn := range c.logicalBody(top) {
+			eachInstr(fn, func(r instrRef) {
+				cc := callCommon(r.I)
+				if cc == nil || len(cc.Args) == 0 {
+					return
+				}
+				nm := calleeName(cc)
+				if nm != "time.After" && nm != "time.NewTimer" && nm != "context.WithTimeout" {
+					return
+				}
+				durArg := cc.Args[0]
+				if nm == "context.WithTimeout" && len(cc.Args) > 1 {
+					durArg = cc.Args[1]
+				}
+				ns, isC := constInt(durArg)
+				if !isC {
+					return
+				}
+				// only the wait of the aborted run: reached through the ctx.Done() case
+				if guardedByCtxDone(r.I) == false {
+					return
+				}
+				n++
+				c.verdict(ns >= defaultMS*1_000_000, rule, fmt.Sprintf("abort-wait@%s#%d", c.fnName(fn), n), c.instrPos(r.I), fmt.Sprintf("waits %d ms, the default closure timeout is %d ms", ns/1_000_000, defaultMS),
+					fmt.Sprintf("an aborted run waits only %d ms for the outputs of its closing steps, less than the %d ms a step may by default take to close: `closed.result` of a slowly closing step arrives after the run has already returned `aborted`", ns/1_000_000, defaultMS))
+			})
+		}
+	}
+	c.minCount(rule, "constant waits of the aborted run", n, 1)
+}
+
+// guardedByCtxDone: the instruction is only reached after a select took its `<-ctx.Done()` case.
+func guardedByCtxDone(in ssa.Instruction) bool {
+	fn := in.Parent()
+	found := false
+	eachInstr(fn, func(r instrRef) {
+		sel, ok := r.I.(*ssa.Select)
+		if !ok {
+			return
+		}
+		for i, st := range sel.States {
+			call, ok := st.Chan.(*ssa.Call)
+			if !ok || !call.Common().IsInvoke() || call.Common().Method.Name() != "Done" {
+				continue
+			}
+			// the branch of case i: an If on `index == i` whose true edge dominates `in`
+			for _, ref := range *sel.Referrers() {
+				ex, ok := ref.(*ssa.Extract)
+				if !ok || ex.Index != 0 || ex.Referrers() == nil {
+					continue
+				}
+				for _, r2 := range *ex.Referrers() {
+					b, ok := r2.(*ssa.BinOp)
+					if !ok || b.Op != token.EQL {
+						continue
+					}
+					k, isC := constInt(b.Y)
+					if !isC || int(k) != i || b.Referrers() == nil {
+						continue
+					}
+					for _, r3 := range *b.Referrers() {
+						if ifi, ok := r3.(*ssa.If); ok && edgeDominates(ifi.Block(), 0, in.Block()) {
+							found = true
+						}
+					}
+				}
+			}
+		}
+	})
+	return found
 }
